@@ -28,7 +28,9 @@ RULE = ("per mechanism: VHDX differencing chains of depth 1-3 on real files (blo
 ASSUMPTIONS = [
     "layer maps use the block states whose meaning the statement fixes: not present (falls through), zero, fully and "
     "partially present; VHDX 'undefined' and 'unmapped' states are only explored without a parent (C03)",
-    "all layers of a chain have the same virtual size unless the sub-space says otherwise (QCOW2 shorter backing)",
+    "all layers of a chain have the same virtual size unless the sub-space says otherwise (QCOW2 shorter backing; the `-grown` "
+    "mechanisms, where every ancestor is one unit shorter than its child: what lies beyond an ancestor's end is below the base "
+    "for that ancestor; Parallels open(guid) views of snapshots older than the enlargement are not compared -- no size is stated)",
     "an unresolvable parent must make the constructor raise (any exception type); only qcow2.ALLOW_NO_BACKING_FILE opts out",
     "builders as in C01-C06",
 ]
@@ -64,15 +66,20 @@ def shards(tier):
     # sector-bitmap entry per chunk with the payload entries
     for i in range(4):
         out.append({"buf": 8192, "kind": "vhdx-blocks", "depth": 2, "W": 3, "slice": [i, 4], "at": 4094, "total": 4098})
+    for depth, k in ((2, 1), (3, 4)):
+        for i in range(k):
+            out.append({"buf": 8192, "kind": "vhdx-blocks", "depth": depth, "W": 3, "slice": [i, k], "grown": True})
     out.append({"buf": 8192, "kind": "vhdx-twochunks"})
     out.append({"buf": 8192, "kind": "vhdx-locate"})
     for buf in bufs[:2] if q else bufs:
         for mech in ("vmdk-hosted", "vmdk-stream", "vmdk-sesparse", "vmdk-multi", "hdd", "hdd-top", "hdd-topdefault", "hdd-plainbase", "hdd-split",
-                     "qcow2", "qcow2-ext", "vdi", "vdi-mixed", "vdi-mixed-up"):
+                     "qcow2", "qcow2-ext", "vdi", "vdi-mixed", "vdi-mixed-up", "vdi-grown", "hdd-grown", "vmdk-grown", "qcow2-grown"):
             for depth in (1, 2, 3):
-                if mech.startswith("vdi-mixed") and depth == 1:
+                if (mech.startswith("vdi-mixed") or mech.endswith("-grown")) and depth == 1:
                     continue
                 W = 3 if depth < 3 else 2
+                if mech.endswith("-grown"):
+                    W = 3  # layers of 2, 3 (depth 2) and 1, 2, 3 (depth 3) units
                 if not q and depth == 3 and mech in ("vdi", "qcow2", "vmdk-hosted"):
                     W = 3
                 k = {1: 1, 2: 4, 3: 8}[depth] * (4 if W == 3 and depth == 3 else 1)
@@ -223,6 +230,12 @@ def _shard_vhdx_blocks(shard, ctx):
             case = {"kind": "vhdx-blocks", "layers": [list(l) for l in layers]}
             if shard.get("at"):
                 case.update(at=shard["at"], total=shard["total"])
+            if shard.get("grown"):
+                # every ancestor one block shorter than its child (a differencing disk enlarged after it was created)
+                lens = [W - (depth - 1 - k) for k in range(depth)]
+                if any(x != 0 for k, st in enumerate(case["layers"]) for x in st[lens[k]:]):
+                    continue
+                case["layers"] = [st[:lens[k]] for k, st in enumerate(case["layers"])]
             _case_vhdx_blocks(case, ctx, d, cache)
 
 
@@ -233,7 +246,7 @@ def _case_vhdx_blocks(case, ctx, d, cache):
 
     layers = case["layers"]
     depth = len(layers)
-    W = len(layers[0])
+    W = len(layers[-1])
     names = _vhdx_names(depth)
     buf = bootstrap.bufsize()
     disk = None
@@ -241,7 +254,7 @@ def _case_vhdx_blocks(case, ctx, d, cache):
         slots = [w if s == DATA else None for w, s in enumerate(states)]
         # descending physical order in odd layers
         if k % 2:
-            slots = [(W - 1 - w) if s == DATA else None for w, s in enumerate(states)]
+            slots = [(len(states) - 1 - w) if s == DATA else None for w, s in enumerate(states)]
         _write_vhdx_layer(d, names, k, states, slots, None, cache, total=case.get("total"), at=case.get("at", 0))
         disk = B.model(states, MB, 512, None, k + 1, disk, total_blocks=case.get("total"), window_at=case.get("at", 0))
     ctx.model(layers)
@@ -257,6 +270,9 @@ def _case_vhdx_blocks(case, ctx, d, cache):
         spts = sorted({0, 1, spb - 1, spb, spb + 1, 2 * spb - 1, 2 * spb, spb - buf // 512, spb + buf // 512} & set(range(0, W * spb + 1)))
         sreqs = [(a, c) for a, c in request_pairs(spts) if 0 < c <= 2 * (buf // 512) + 2]
         sreqs += [(0, spb), (spb // 2, spb), (0, 2 * spb)]
+        if len(layers[0]) != W:  # grown chains: what lies behind the end of the ancestors
+            sreqs += [(0, W * spb), (spb + 1, (W - 1) * spb - 1), ((W - 1) * spb - 1, 2), ((W - 1) * spb, 1), ((W - 1) * spb - 3, 8),
+                      (W * spb - 1, 1), ((W - 2) * spb - 1, spb + 2), ((W - 2) * spb, 16), ((W - 2) * spb + 5, 16)]
         if at:
             sreqs += [(0, W * spb), (spb // 2, 2 * spb), (spb, 2 * spb), (2 * spb - 1, 2)]
             sreqs = [(at * spb + a, c) for a, c in sreqs]
@@ -488,10 +504,20 @@ def _case_vhdx_locate(case, ctx, d):
 ALPHA = {"vmdk-stream": [HOLE, ZERO, DATA], "vmdk-hosted": [HOLE, ZERO, DATA], "vmdk-sesparse": [HOLE, ZERO, "F", DATA], "vmdk-multi": [HOLE, ZERO, DATA],
          "hdd-split": [HOLE, DATA], "hdd": [HOLE, DATA], "hdd-top": [HOLE, DATA], "hdd-topdefault": [HOLE, DATA], "hdd-plainbase": [HOLE, DATA],
          "qcow2": ["U", "Z", "N", "C"], "qcow2-ext": ["u", "a", "z"], "vdi": [HOLE, ZERO, DATA],
-         "vdi-mixed": [HOLE, ZERO, DATA], "vdi-mixed-up": [HOLE, ZERO, DATA]}
+         "vdi-mixed": [HOLE, ZERO, DATA], "vdi-mixed-up": [HOLE, ZERO, DATA],
+         "vdi-grown": [HOLE, ZERO, DATA], "hdd-grown": [HOLE, DATA], "vmdk-grown": [HOLE, ZERO, DATA], "qcow2-grown": ["U", "Z", "N"]}
 UNIT = {"vmdk-stream": 4096, "hdd-split": 4096, "vmdk-hosted": 4096, "vmdk-sesparse": 4096, "vmdk-multi": 4096, "hdd": 4096, "hdd-top": 4096,
         "hdd-topdefault": 4096, "hdd-plainbase": 4096, "qcow2": 4096, "qcow2-ext": 512,
-        "vdi": 4096, "vdi-mixed": 4096, "vdi-mixed-up": 4096}
+        "vdi": 4096, "vdi-mixed": 4096, "vdi-mixed-up": 4096, "vdi-grown": 4096, "hdd-grown": 4096, "vmdk-grown": 4096,
+        "qcow2-grown": 4096}
+
+
+def _grown_lens(mech, depth, W):
+    """`-grown` mechanisms: every ancestor is one unit shorter than its child (a disk enlarged after each snapshot); what lies
+    beyond the end of an ancestor is below the base for that ancestor: the next one down, finally zeros."""
+    if not mech.endswith("-grown"):
+        return [W] * depth
+    return [W - (depth - 1 - k) for k in range(depth)]
 
 
 def _mixed_layer(st, k, unit, up=False):
@@ -541,6 +567,12 @@ def _case_chain(case, ctx, d, cache):
             return  # a Plain base image holds every cluster: only the all-data base map is meaningful
 
     size = W * unit
+    lens = _grown_lens(mech, depth, W)
+    if mech.endswith("-grown"):
+        if any(x != ALPHA[mech][0] for k, st in enumerate(layers) for x in st[lens[k]:]):
+            return  # the tokens behind the end of a shorter layer do not exist: one representative (all first token)
+        layers = [list(st[:lens[k]]) for k, st in enumerate(layers)]
+        case = dict(case, layers=layers)
     # reference model: fold top-down
     disk = None
     if mech.startswith("vdi-mixed"):
@@ -557,7 +589,7 @@ def _case_chain(case, ctx, d, cache):
     else:
         for k, st in enumerate(layers):
             ul = {i: (pattern.COMPRESSIBLE | (k + 1)) for i, x in enumerate(st) if x == "C"}
-            disk = GuestDisk(size, unit, _to_model_states(mech, st), k + 1, disk, unit_layers=ul)
+            disk = GuestDisk(len(st) * unit, unit, _to_model_states(mech, st), k + 1, disk, unit_layers=ul)
     ctx.model([mech, layers])
     ctx.executions += 1
     ctx.sample(case)
@@ -595,7 +627,9 @@ def _case_chain(case, ctx, d, cache):
                 hdd, guids = top._verif_hdd
                 m = None
                 for k, st in enumerate(layers):
-                    m = GuestDisk(size, unit, _to_model_states(mech, st), k + 1, m)
+                    m = GuestDisk(len(st) * unit, unit, _to_model_states(mech, st), k + 1, m)
+                    if len(st) != W:
+                        continue  # the view of a snapshot taken before the disk was enlarged: its size is not stated anywhere
                     for g in (guids[k], guids[k].strip("{}")):
                         view = hdd.open(g)
                         try:
@@ -619,7 +653,10 @@ def _case_chain(case, ctx, d, cache):
 def _open_chain(mech, layers, d, cache, unit):
     """Builds every layer, opens the top through the public API; returns (stream, sector reader | None, closer)."""
     depth = len(layers)
-    W = len(layers[0])
+    W = len(layers[-1])  # the top layer's length is the disk's (ancestors of `-grown` chains are shorter)
+    grown = mech.endswith("-grown")
+    if grown:
+        mech = {"vdi-grown": "vdi", "hdd-grown": "hdd", "vmdk-grown": "vmdk-hosted", "qcow2-grown": "qcow2"}[mech]
     if mech.startswith("vmdk"):
         from dissect.hypervisor.disk.vmdk import VMDK
 
@@ -638,7 +675,7 @@ def _open_chain(mech, layers, d, cache, unit):
                 os.unlink(os.path.join(sub, fn))
             placed = (DATA,)
             kind = "sesparse" if (mech == "vmdk-sesparse" and k == depth - 1 and k > 0) or (mech == "vmdk-sesparse" and depth == 1) else "hosted"
-            split = [W] if not (mech == "vmdk-multi" and k == depth - 1) else [W - 1, 1]
+            split = [len(st)] if not (mech == "vmdk-multi" and k == depth - 1) else [W - 1, 1]
             extents = []
             g0 = 0
             for xi, n in enumerate(split):
@@ -748,7 +785,7 @@ def _open_chain(mech, layers, d, cache, unit):
                         f.write(pattern.span(1, 0, W * unit))
                 else:
                     slots = [s + 1 if s is not None else None for s in _slots_for(st, k, (DATA,))]
-                    B.build_hds(st, slots, spc, 2 if k % 2 == 0 else 1, W * spc, layer=k + 1).write_to(
+                    B.build_hds(st, slots, spc, 2 if k % 2 == 0 else 1, len(st) * spc, layer=k + 1).write_to(
                         os.path.join(hd, fn))
                 cache[("f", k)] = key
             images.append((guids[k], "Plain" if plain else "Compressed", fn))
@@ -787,7 +824,7 @@ def _open_chain(mech, layers, d, cache, unit):
                 slots = _slots_for(st, k, ("N",))
                 img, _ = B.build(list(st), slots, 12, 3 if k % 2 == 0 else 2 if "Z" not in st else 3, layer=k + 1,
                                  backing_name=f"l{k - 1}.qcow2" if k else None,
-                                 comp={i: ((0, 1, 511)[(i + k) % 3], 0, False) for i in range(W)})
+                                 comp={i: ((0, 1, 511)[(i + k) % 3], 0, False) for i in range(len(st))})
             else:
                 sub = list(st) + ["u"] * (32 - W)
                 alloc = "a" in sub
